@@ -10,6 +10,7 @@ import re
 
 from hypothesis import strategies as st
 
+from vlib import join_unit
 from vlib.core import fuzz_variant, Sub, req, sut
 
 PROPERTY = "C03"
@@ -102,6 +103,26 @@ def check_unit(case):
     return {"nontrivial": (rg and qg) or len(pairs) == 1 or rev, "classes": cl}
 
 
+def check_join_unit(case):
+    """HitEnum of every row that comes out of the first/second-pass join"""
+    from vlib.oracles import valid_matching
+    jr = join_unit.run(case)
+    nt = False
+    cl = {f"mode={case['mode']}"}
+    for st_ in jr.steps:
+        for kind, rows in (("joined", st_["joined"]), ("un-joined", st_["separate"])):
+            for row in rows:
+                pairs = join_unit.pairs_of(row)
+                if not valid_matching(pairs, row.orientation, bounds=False):
+                    cl.add("not-a-valid-matching(C01)")
+                    continue
+                check_hitenum(sut(lambda: row.cigarString), pairs, row.orientation == "-", f"{kind} row out of resolve({st_['kind']}): ")
+                if kind == "joined":
+                    nt = True
+                    cl.add("joined")
+    return {"nontrivial": nt, "classes": sorted(cl)}
+
+
 def enum_grid(N):
     def gen(shard, nshards):
         k = 0
@@ -173,6 +194,8 @@ def subchecks(tier):
             describe=f"all valid matchings on a {8 if q else 10}x{8 if q else 10} grid, both orientations", time_budget_s=3000),
         Sub("random-matchings", "hyp", check_unit, strategy=random_matching, examples=10000 if q else 200000, shrink_budget=800,
             required_classes=("I-and-D-in-one-gap", "pairs=1")),
+        Sub("join-unit", "hyp", check_join_unit, strategy=join_unit.join_case, examples=6000 if q else 150000, shrink_budget=400,
+            describe="rows out of AlignmentResults.resolve (unit-level join)"),
         Sub("pipeline", "hyp", check_pipeline, strategy=lambda: gen_maps.pipeline_case(), examples=320 if q else 8000,
             shrink_budget=120, describe="records of generated end-to-end runs", sample_filter=gen_maps.short_case),
     ]
